@@ -28,11 +28,13 @@ type svidSource struct {
 // Implements the go-spiffe x509 source interface.
 func (s *svidSource) GetX509SVID() (*x509svid.SVID, error) {
 	verifPoint("spiffe.get.enter")
+	// Wait for the initial fetch before taking the read lock: Run holds the write lock until it has signalled
+	// readiness, and a reader waiting for readiness while holding the read lock would block Run forever.
+	<-s.spiffe.readyCh
+
 	s.spiffe.lock.RLock()
 	defer s.spiffe.lock.RUnlock()
 	verifPoint("spiffe.get.locked")
-
-	<-s.spiffe.readyCh
 
 	svid := s.spiffe.currentSVID
 	if svid == nil {
